@@ -542,6 +542,13 @@ class Ctx:
         c['broken_obligations'] = list(names)
         self.violation(c, None, None, theorem, 'proof obligations no longer check: %s: %s' % (', '.join(names), detail[-1500:]), no_input=True)
 
+    def sample_safe(self, make):
+        """an evidence sample must never turn into an alarm: index / type errors while building it are swallowed"""
+        try:
+            self.sample(make())
+        except Exception:
+            pass
+
     def known_finding(self, fid):
         self.known_hits[fid] = self.known_hits.get(fid, 0) + 1
 
